@@ -25,6 +25,18 @@ func (c *clientPool) setPool(nodeID uint64, p Pool) {
 	c.mu.Unlock()
 }
 
+// setPoolIfAbsent registers p as the pool of nodeID unless the node already
+// has one, and returns the pool that is registered for the node.
+func (c *clientPool) setPoolIfAbsent(nodeID uint64, p Pool) Pool {
+	c.mu.Lock()
+	defer c.mu.Unlock()
+	if cur, ok := c.pool[nodeID]; ok {
+		return cur
+	}
+	c.pool[nodeID] = p
+	return p
+}
+
 func (c *clientPool) getPool(nodeID uint64) (Pool, bool) {
 	c.mu.RLock()
 	p, ok := c.pool[nodeID]
